@@ -50,6 +50,7 @@ pub struct Ctx {
     pub notes: Vec<String>,
     trace: Trace,
     pub is_replay: bool,
+    started: std::time::Instant,
 }
 
 thread_local! {
@@ -144,6 +145,7 @@ impl Ctx {
             notes: Vec::new(),
             trace,
             is_replay: false,
+            started: std::time::Instant::now(),
         }
     }
 
@@ -163,11 +165,17 @@ impl Ctx {
         if self.config != "miri" || self.is_replay {
             return false;
         }
-        let cap = match self.tier {
-            Tier::Quick => 24,
-            Tier::Thorough => 60,
+        // the interpreter is ~10^4 times slower: bound the *workload* (never the verdict) by a case
+        // count and by elapsed time
+        let (cap, secs) = match self.tier {
+            Tier::Quick => (24, 40),
+            Tier::Thorough => (60, 200),
         };
-        self.cases >= cap
+        self.cases >= cap || self.started.elapsed().as_secs() >= secs
+    }
+
+    pub fn light(&self) -> bool {
+        self.config == "miri"
     }
 
     /// Is this deterministic item (by running index) assigned to this shard?
